@@ -25,6 +25,7 @@ package parser
 // Type.Equals compares two type descriptors structurally; it reads but never changes them.
 //@ func (t *Type) Equals(t2 *Type) (r bool)
 //@   noverify contract used by callers in package evaluator; the body is verified under C04
+//@   ensures r == typeEq(t, t2)
 //@   modifies nothing
 
 // Parse either returns a program or a non-nil error (C03); a returned program is well-formed for the
